@@ -482,11 +482,22 @@ class Check(core.PropertyCheck):
         return {}
 
     def model_constants(self, tier):
-        return {"Cfgs": tuple(cfgs(tier))}
+        return {"Cfgs": tuple(cfgs(tier)), "CountsConcurrent": True}
 
     def model_runs(self, ctx):
         inv = ("Report", "WatchOnlyWhenWanted", "ErrorCheckOffWhileWaiting")
-        return [ctx.model_check(self.MODEL, self.model_constants(ctx.tier), dump=True, invariants=inv)]
+        fixed = ctx.model_check(self.MODEL, self.model_constants(ctx.tier), dump=True, invariants=inv)
+        # the code before repair 24c0b3842 (finding F1): the clause must be reachable there, i.e. it is not vacuous
+        prefix = ctx.model_check(self.MODEL, {"Cfgs": tuple(cfgs("quick")), "CountsConcurrent": False}, dump=False,
+                                 invariants=inv, tag="_prefix")
+        want = ["X08.exit_with_pending_work", "client", "concurrent"]
+        if want not in prefix.bad:
+            raise core.MachineryError(f"clause {want} unreachable in the pre-repair model (got {prefix.bad})")
+        if want in fixed.bad:
+            raise core.MachineryError(f"clause {want} reachable in the repaired model")
+        ctx.notes["prefix_model_reaches"] = prefix.bad
+        prefix.bad = []
+        return [fixed, prefix]
 
     @staticmethod
     def _scenario(beh, source="model"):
